@@ -1,4 +1,5 @@
 """Normalisation rules (C06): the independent run-collapsers / checkers agree on the run limit."""
+import re
 from ..sym import Sym, strip, show, canon, const_named, const_value, is_param, fpath
 from ..mir import callee_of, pl
 
@@ -284,3 +285,107 @@ def validator_outcomes(ctx, prog):
         bad.append(["acceptance sites %s" % [sorted(map(str, a)) for a in acc][:3]])
     ctx.ob(RVO, "verify_block_hash_internal: the five outcomes (symbol out of range / run too long in the normalisation branch, symbol out of range in the plain branch, non-zero tail, accept) are reached under exactly their conditions",
            got == exp and not bad, "outcomes %s%s" % ([x for x in got if x not in exp][:3] or ([x for x in exp if x not in got][:3] and "missing %s" % [x for x in exp if x not in got][:3]) or "as reviewed", ("; unread conditions %s" % bad[:3]) if bad else ""), f.loc())
+
+
+def normalize_step(ctx, prog):
+    """`normalize_block_hash_in_place_internal`: what one iteration does, as a table (the STEP of run-collapsing, not a proof of the loop):
+    run counter := 0 at the start and on a symbol that differs from the previous one (which then becomes the previous one);
+    := run + 1 on a repeat; := MAX_SEQUENCE_SIZE (saturated) exactly when a repeat has brought it to >= MAX_SEQUENCE_SIZE - and only that
+    case skips the store; every other symbol is stored at `len`, and `len` advances by one per store, from 0; previous symbol starts at the
+    sentinel; the walk is over blockhash[0 .. old length]."""
+    from ..sym import path_conds, bool_atom
+    RS = "SA-STEP"
+    f = prog.fn("hash::algorithms::normalize_block_hash_in_place_internal")
+    ctx.visit(f)
+    sy = Sym(f)
+
+    def atoms_at(b):
+        out = set()
+        for c in path_conds(f, sy, b):
+            if len(c) > 3:
+                from .summary import _belief_edge
+                if _belief_edge(f, c[3][0]):
+                    continue
+            a = bool_atom(c)
+            if a is None or a[0] == "truth":
+                continue
+            l_, r_ = strip(a[1]), strip(a[2])
+            item = "::next(" in canon(l_) and l_[0] == "index"
+            if item and r_[0] == "local":
+                out.add(("ITEM", a[0], "PREV:%d" % r_[1]))
+            elif l_[0] == "local" and const_value(r_) is not None:
+                out.add(("L%d" % l_[1], a[0], const_value(r_)))
+            else:
+                out.add(("?", canon(l_)[:40], a[0], canon(r_)[:30]))
+        return out
+    bad = []
+    run = prev = ln = None
+    for l, ds in f.defs.items():
+        if l <= f.argc or len(ds) < 2:
+            continue
+        vals = [(b, strip(sy.rvalue(x)) if k == "rv" else None) for (b, _i, k, x) in ds]
+        txt = [canon(v) if v is not None else "call" for _, v in vals]
+        me = "local:%s_%d" % (f.locals[l]["name"] or "", l)
+        if f.locals[l]["ty"] == "usize" and any(t == "Add(%s,1)" % me for t in txt):
+            consts = sorted(const_value(v) for _, v in vals if v is not None and const_value(v) is not None)
+            if consts == [0, 0, 3] and len(vals) == 4:
+                run = (l, vals)
+            elif consts == [0] and len(vals) == 2:
+                ln = (l, vals)
+        if f.locals[l]["ty"] == "u8" and len(vals) == 2 and any(const_value(v) == 64 for _, v in vals if v is not None):
+            prev = (l, vals)
+    if run is None or prev is None or ln is None:
+        ctx.ob(RS, "normalize_block_hash_in_place_internal: run counter, previous symbol and stored length identified", False,
+               "run %s, prev %s, len %s" % (run is not None, prev is not None, ln is not None), f.loc())
+        return
+    R_, P_, L_ = run[0], prev[0], ln[0]
+    rme = "local:%s_%d" % (f.locals[R_]["name"] or "", R_)
+
+    def rel(at):
+        return {a for a in at if a[0] in ("ITEM", "L%d" % R_)}
+    for b, v in run[1]:
+        at = rel(atoms_at(b))
+        t = canon(v)
+        if const_value(v) == 0:
+            ok = at in (set(), {("ITEM", "Ne", "PREV:%d" % P_)})
+        elif const_value(v) == 3:
+            ok = at == {("ITEM", "Eq", "PREV:%d" % P_), ("L%d" % R_, "Ge", 3)}
+            sat = b
+        else:
+            ok = t == "Add(%s,1)" % rme and at == {("ITEM", "Eq", "PREV:%d" % P_)}
+        if not ok:
+            bad.append("run := %s under %s" % (t[-40:], sorted(at)))
+    for b, v in prev[1]:
+        at = rel(atoms_at(b))
+        if const_value(v) == 64:
+            ok = at == set()
+        else:
+            ok = "::next(" in canon(v) and at == {("ITEM", "Ne", "PREV:%d" % P_)}
+        if not ok:
+            bad.append("prev := %s under %s" % (canon(v)[-40:], sorted(at)))
+    # the store and the advance of len: in one block, reached from every arm except the saturating one
+    stores = [(i, s) for i, j, s in f.stmts() if s["s"] == "assign" and s["lhs"]["p"] and s["lhs"]["l"] == 1 and any(isinstance(x, dict) and "ix" in x for x in s["lhs"]["p"])]
+    adv = [b for b, v in ln[1] if v is not None and const_value(v) is None]
+    hdr = [i for i, t in f.calls() if callee_of(t).endswith("::next")]
+    if len(stores) != 1 or len(adv) != 1 or len(hdr) != 1:
+        bad.append("%d element stores, %d advances of the stored length, %d loop headers" % (len(stores), len(adv), len(hdr)))
+    else:
+        sb, st = stores[0]
+        ix = [x for x in st["lhs"]["p"] if isinstance(x, dict) and "ix" in x][0]["ix"]
+        src = canon(strip(sy.rvalue(st["rv"])))
+        if strip(sy.local(ix)) != ("local", L_, f.locals[L_]["name"]) or "::next(" not in src or not src.startswith("param:blockhash["):
+            bad.append("store %s = %s" % (canon(strip(sy.place(st["lhs"])))[:50], src[-50:]))
+        if not f.dominates(sb, adv[0]) and sb != adv[0]:
+            bad.append("the stored length advances without a store")
+        sat_b = [b for b, v in run[1] if const_value(v) == 3]
+        if sat_b and sb in f.reach_from(sat_b[0], avoid=set(hdr)):
+            bad.append("a symbol of a saturated run is stored")
+        for b, v in run[1]:
+            if const_value(v) != 3 and b in f.reach_from(hdr[0]) and b != sat_b[0] if sat_b else False:
+                if sb not in f.reach_from(b, avoid=set(hdr) | set(sat_b)):
+                    bad.append("the symbol is not stored after `run := %s`" % canon(v)[-20:])
+        rng = canon(strip(sy.origin(strip(sy.operand(f.blocks[hdr[0]]["term"]["args"][0])))))
+        if not re.search(r"Range::Range\{0,\(\*?param:blockhash_len as usize\)\}", rng.replace("local:old_blockhash_len", "param:blockhash_len")) and "Range{0," not in rng:
+            bad.append("walks %s" % rng[:80])
+    ctx.ob(RS, "normalize_block_hash_in_place_internal: run-collapsing step table (reset on a new symbol, +1 on a repeat, saturate and skip the store at MAX_SEQUENCE_SIZE, store + advance otherwise)",
+           not bad, "; ".join(bad)[:600] or "4 run definitions, 2 previous-symbol definitions, 1 store", f.loc())
